@@ -255,7 +255,9 @@ impl Gen<'_> {
             let mut name = derived;
             let mut explicit = false;
             if self.r.chance(30) {
-                let base = self.r.pick(&["x", "go-now", "пуск", "值", "a_b", "Q", "гет", "ge", "get"]);
+                // explicit names are used verbatim: mixed case, underscores, multi-byte names whose first differing characters share
+                // a lead byte (пуск / путь / пуля, k佐 / k佗), names around the built-in `help`, one long multi-byte name
+                let base = self.r.pick(&["x", "go-now", "пуск", "值", "a_b", "Q", "гет", "ge", "get", "путь", "пуля", "k佐", "k佗", "heap", "heat", "he", "helm", "h", "длинная-команда", "maxLevel"]);
                 let cand = format!("{}{}", base, if self.r.chance(60) { self.r.below(10).to_string() } else { String::new() });
                 if !used_name.contains(&cand) && cand != "help" && !(depth == 0 && taken_names.contains(&cand)) {
                     name = cand;
@@ -344,7 +346,7 @@ impl Gen<'_> {
                                 l = Some(ws.join("-"));
                                 lg = true;
                             } else {
-                                l = Some(format!("{}{}", self.r.pick(&["конф", "long-x", "o", "值"]), longs.len()));
+                                l = Some(format!("{}{}", self.r.pick(&["конф", "long-x", "o", "值", "maxLevel", "log_file", "Xy", "очень-длинное-имя"]), longs.len()));
                             }
                             if longs.contains(l.as_ref().unwrap()) {
                                 l = None;
@@ -381,7 +383,7 @@ impl Gen<'_> {
                     }
                     if self.r.chance(25) {
                         // value names are kept unique within a command (as a user would)
-                        let vn = self.r.pick(&["FILE", "lvl", "NM", "Вал", "N"]).to_string();
+                        let vn = self.r.pick(&["FILE", "lvl", "NM", "Вал", "N", "ОЧЕНЬ_ДЛИННОЕ", "GRÖSSE"]).to_string();
                         if !vnames.contains(&vn) {
                             f.value_name = Some(vn);
                         }
